@@ -19,9 +19,10 @@ const (
 	ftBool
 	ftInt
 	ftFloat
+	ftAbsent // a field no document carries: categorical complement semantics, ordering comparisons match nothing
 )
 
-func (t fieldType) String() string { return [...]string{"string", "bool", "int", "float"}[t] }
+func (t fieldType) String() string { return [...]string{"string", "bool", "int", "float", "absent"}[t] }
 func (t fieldType) numeric() bool  { return t == ftInt || t == ftFloat }
 
 type metaSchema struct {
@@ -98,6 +99,13 @@ func (m *metaModel) evalFilter(f comet.Filter, d map[string]any, types map[strin
 	}
 	str := func(x any) string { return fmt.Sprintf("%v", x) }
 	switch f.Operator {
+	case comet.OpGreaterThan, comet.OpGreaterThanOrEqual, comet.OpLessThan, comet.OpLessThanOrEqual, comet.OpRange, "not_range":
+		// an ordering comparison on a field that NO document carries matches nothing; on a field that is known
+		// to be categorical the property defines nothing
+		if !has && ft == ftAbsent {
+			return false, true
+		}
+		return false, false
 	case comet.OpEqual, "":
 		return has && str(v) == str(f.Value), true
 	case comet.OpNotEqual:
